@@ -54,7 +54,15 @@ Inductive case :=
    re-enter the bridge while they are converted: the Go-side log and the error class *)
 | CReent (calls : list rcall) (log : list (Z * list Z)) (err : Z)
 (* values nested in a pointer-bridged struct passed to pointer / value / interface parameters that mutate them *)
-| CPtr (init : list Z) (ops : list pop) (o : list ob).
+| CPtr (init : list Z) (ops : list pop) (o : list ob)
+(* a write of JS value v to a bridged struct field of Go type t (path: by name, by
+   tag, nested, through a pointer, through a variable, inside try/catch, as a
+   member of an object literal assigned to the enclosing struct): the error
+   class the script gets and the Go-side content of the field afterwards *)
+| CFieldWrite (path : Z) (t : gty) (v : jsv) (init : gv) (err : Z) (after : gv)
+(* a function returning row i of a table, called for each i of calls with every
+   result kept; what each kept result shows at the end *)
+| CRetHist (rows : list (list gv)) (calls : list Z) (o : list (list jobs)).
 
 (* what a script reads from a bridged numeric element: the double nearest to it *)
 Definition js_read (o : outcome) : option dclass :=
@@ -170,4 +178,23 @@ Definition verdict (c : case) : Z * Z :=
       judge (fun a b => list_eqb (fun x y => (fst x =? fst y) && zlist_eqb (snd x) (snd y)) (fst a) (fst b) && (snd a =? snd b))
             (log, err) e e 0
   | CPtr init ops o => let m := prun init ops in judge obs_eqb o m m 0
+  | CFieldWrite path t v init err after =>
+      let run (idn ids : bool) :=
+        if (path =? 6) || (path =? 7) then
+          match conv idn ids 12 (JObj [(11, v)]) (TStruct [mkF 11 0 true []] [t]) with
+          | CV (GVStruct [g]) => CV g
+          | CV _ => CDecl
+          | r => r
+          end
+        else conv idn ids 12 v t in
+      let outcome_of (r : cres) := match r with CV g => (0, g) | CE c => (c, init) | CDecl => (-1, init) end in
+      match run false false with
+      | CDecl => declined
+      | m =>
+          judge (fun a b => (fst a =? fst b) && gv_eqb (snd a) (snd b)) (err, after)
+                (outcome_of m) (outcome_of (run true true))
+                (if cres_eqb (run true false) m then 11 else 1)
+      end
+  | CRetHist rows calls o =>
+      let e := ret_hist rows calls in judge (list_eqb (list_eqb jobs_eqb)) o e e 0
   end.
